@@ -184,7 +184,7 @@ func init() {
 			return t1(app(f, x[0].T, x[1].T), resType(c, 0))
 		},
 		"(github.com/shopspring/decimal.Decimal).Round":       uninterp("dround"),
-		"(github.com/shopspring/decimal.Decimal).String":      pureFresh,
+		"(github.com/shopspring/decimal.Decimal).String":      uninterp("decimal_String"),
 		"(github.com/shopspring/decimal.Decimal).StringFixed": uninterp("dstringfixed"),
 		"(github.com/shopspring/decimal.Decimal).Float64": func(a *Act, st *State, c *ssa.Function, x []Val, p tokenPos) Val {
 			return Val{Tuple: []Val{{T: x[0].T, Typ: resType(c, 0)}, {T: a.u.D.Fresh("exact", "Bool"), Typ: tBool}}}
